@@ -171,6 +171,15 @@ func parseStrictRFC3339(layout, s string) (time.Time, error) {
 			return time.Time{}, fmt.Errorf("parsing time %q: time zone offset minute out of range", s)
 		}
 	}
+	// time.Parse attaches the HOST's local zone when the written offset happens
+	// to equal the offset local time has at that instant.  The value then
+	// follows the host's daylight-saving rules: adding 48h across a transition
+	// and formatting the result printed another offset than the one written,
+	// depending on the TZ of the machine.  A written offset is a fixed offset.
+	if t.Location() == time.Local {
+		_, off := t.Zone()
+		t = t.In(time.FixedZone("", off))
+	}
 	return t, nil
 }
 
